@@ -28,7 +28,7 @@ Definition may_reset_session (o : obs) : bool :=
   end.
 
 (* ---------------- C08 ---------------- *)
-Record g08 := mkG08 { g_app : list N }.   (* ids the application holds and is responsible for *)
+Record g08 := mkG08 { g_app : list N; g_contract : bool }.   (* ids the application holds and is responsible for *)
 
 Definition id_carrier (p : pkt) : bool :=
   ((k_type p =? T_PUBLISH) && negb (k_qos p =? 0)) || (k_type p =? T_SUBSCRIBE) || (k_type p =? T_UNSUBSCRIBE).
@@ -101,7 +101,9 @@ Definition judge_c08 (g : cfg) (gh : g08) (o : obs) : list N * g08 :=
       match ob_op o with
       | OClosed =>
         (* non-persistent session: nothing the library owned stays in use *)
-        if negb (c_need_store pre) then
+        (* (only under the application contract: an unreported close followed by a new CONNECT
+           forgets the pending subscribe/unsubscribe ids without the library ever being told) *)
+        if negb (c_need_store pre) && g_contract gh then
           let used_count := g_idmax g - fc_post in
           let held := N.of_nat (length (filter (fun id => used post id) app3)) in
           if used_count <=? held then [] else [9; used_count; held]
@@ -109,14 +111,14 @@ Definition judge_c08 (g : cfg) (gh : g08) (o : obs) : list N * g08 :=
       | _ => []
       end
     end in
-  (v2, mkG08 app3).
+  (v2, mkG08 app3 (g_contract gh)).
 
 Definition mon_c08 (cs : list N) : list N :=
   let t := dec_trace cs in
   if negb (tr_ok t) then [0; V_BADCASE]
   else
     (* restored sessions start with ids the ghost cannot attribute: judged without the close clause *)
-    run_mon judge_c08 (tr_cfg t) (mkG08 []) 0 (tr_obs t).
+    run_mon judge_c08 (tr_cfg t) (mkG08 [] (tr_contract t)) 0 (tr_obs t).
 
 (* ---------------- C12 ---------------- *)
 Record g12 := mkG12 { g_open : list N;    (* outbound QoS>0 exchanges of this connection *)
